@@ -419,10 +419,14 @@ def run(ctx):
     allcases.append({'mode': 'span', 'nkeys': 100000})
     # bounded search (ms) for the schedule of the Lead_orphan counterexample (write || DeleteRange on one entry)
     allcases.append({'mode': 'orphan', 'nkeys': 6000 if tier == 'quick' else 30000})
+    # bounded search (ms): two concurrent first writes on a fresh / freed cache must both be stored and accounted (lazy store
+    # allocation; found by trace validation, repaired in Cache.init/Free -- kept as a regression probe, any hit is a violation)
+    allcases.append({'mode': 'firstwrites', 'nkeys': 4000 if tier == 'quick' else 20000})
     res, lines = ctx.replay(binary, allcases, timeout=1500)
     ctx.absorb(res, lines)
-    span = res[-2]
-    orphan = res[-1]
+    span = res[-3]
+    orphan = res[-2]
+    ctx.extra_cov['first_writes_race_iterations'] = res[-1].get('evals')
     # the window is a few instructions wide: not hitting it within the budget is recorded, not an error (DESIGN section 10:
     # timing); the lead was confirmed on the real cache by this search (about 1 hit per 1.5e5 iterations) and by a recorded trace
     ctx.extra_cov['lead_orphan_reproduced_this_run'] = bool(not orphan.get('ok') and PAT_ORPHAN in (orphan.get('patterns') or []))
